@@ -165,8 +165,8 @@ func init() {
 		Rule: "cases are list-mode (a, b) pairs incl. pointer-hostile keys ('/', '~', '~0', '~1', '~01', empty, unicode, number-like, '-'), multi-add / multi-remove hunks with context, nested arrays, void sides; " +
 			"RenderPatch output is parsed and evaluated by the harness's RFC 6901/6902 evaluator on a (must give b) and on perturbed targets where the native diff applies (must give the same result); refusal is demanded exactly for number-like keys and '-', also through both binaries (`-f patch`: rendering with status 1 or refusal with status 2 and empty stdout); " +
 			"non-trivial = non-empty expressible diff; distinct = distinct (a, b)",
-		Floors: map[string]int{"rfc_gives_b": 20000, "expect_refusal": 500, "target_native_applies": 5000, "target_differs_from_a_and_applies": 1000,
-			"hunk_list_multi": 3000, "op:test": 10000, "op:remove": 10000, "op:add": 10000, "hostile_key_in_diff": 1000, "cli_expect_refusal": 15, "cli_expect_rendering": 40},
+		Floors: map[string]int{"rfc_gives_b": 20000, "expect_refusal": 250, "target_native_applies": 5000, "target_differs_from_a_and_applies": 1000,
+			"hunk_list_multi": 3000, "op:test": 10000, "op:remove": 10000, "op:add": 10000, "hostile_key_in_diff": 1000, "cli_expect_refusal": 15, "escape_lookalike_pairs": 2000, "cli_expect_rendering": 40},
 		NeedsCLI: true,
 		Assumptions: []string{
 			"RFC 6902 reading of root replacement (DESIGN 5.9): `remove \"\"` makes the document absent, the only legal next op is `add \"\"`, an absent document at the end is the empty (void) document",
@@ -186,6 +186,22 @@ func init() {
 				a, b = gen.DeepChainPair(c.R, prof, false)
 				c.Feature("deep_chain_pairs")
 			}
+			c09Case(c, ref.ToJSON(a), ref.ToJSON(b), prof)
+		},
+	})
+	p.Strata = append(p.Strata, mon.Stratum{
+		Name: "escape-lookalikes",
+		N:    qt(3000, 150000),
+		Run: func(c *mon.Ctx, i int) {
+			// keys and values made of the characters JSON escapes, and of texts that LOOK like escapes
+			// (a backslash followed by u0026): any post-processing of the rendered text shows here
+			look := []any{"\\u0026", "write \\u003c for <", "<", "&", ">", "\\", "\"", "\\\\u003e", "a\\nb", "\u2028", "tab\there"}
+			prof := gen.PTiny.With(func(p *gen.Profile) {
+				p.Scalars = look
+				p.Keys = []string{"\\u0026", "<", "a&b", "\\", "k"}
+			})
+			a, b := gen.Pair(c.R, prof)
+			c.Feature("escape_lookalike_pairs")
 			c09Case(c, ref.ToJSON(a), ref.ToJSON(b), prof)
 		},
 	})
